@@ -1375,6 +1375,13 @@ def cmp_c07(case, i, m):
     return ("compile:" + case["kind"], f"well-formed declarative profile ({case['kind']}, size {case['size']}) does not compile: {i.get('outcome')}: {str(i.get('err'))[:300]}")
 
 
+C07_LEVEL_THEOREMS = ["Acv.C07Levels.source_readable", "Acv.C07Levels.levels_table", "Acv.C07Levels.level_names_fresh",
+                      "Acv.C07Levels.levels_defined", "Acv.C07Levels.default_iff_empty", "Acv.C07Levels.never_default_and_rule",
+                      "Acv.C07Levels.defaults_nodup", "Acv.C07Levels.rules_per_level", "Acv.C07Levels.rego_rules_per_level",
+                      "Acv.C07Levels.dedup_leaves_level_undefined", "Acv.C07Levels.zero_branches_leave_level_undefined",
+                      "Acv.C07Levels.proper_rules_levels_defined"]
+
+
 def check_C07(ctx):
     broken = []
     try:
@@ -1383,6 +1390,9 @@ def check_C07(ctx):
     except Broken as b:
         return conclude(ctx, [b])
     broken += prove(ctx, "Acv.Props.C07", C07_THEOREMS)
+    # the level names the preamble's report rules read are defined (rule or default, never both), over the table regenerated from
+    # ruleSet / preamble / preambleRaw / wrapTopLevelRegoResult and the parser's level lists
+    broken += prove(ctx, "Acv.Props.C07Levels", C07_LEVEL_THEOREMS)
     try:
         extra = () if ctx.quick() else ("full",)
         lines = gen_cases("c07", 40 if ctx.quick() else 1500, ctx.seed * 1000 + 11, extra)
@@ -1406,8 +1416,9 @@ def check_C07(ctx):
         broken.append(b)
     ctx.coverage["rule"] = ("every constraint kind (22) x 17 path shapes (incl. custom annotation steps, direct and inverse, in every position), plain/negated/nested; 1..40 (thorough 1..60) quantified constraints in one validation; nesting depth 1..8 (thorough ..10; the engine's compile time grows about 3.7x per level: 4 s at depth 8, 58 s at depth 10, so deeper profiles are not explored); 1..30 (..100) validations; "
                             "random formulas of the full language; profile names that must sanitise into a package name; pkg.CompileProfile must succeed")
-    ctx.assumptions += ["that the engine accepts the REST of the emitted code (safety, types) is not modelled: only the names the translator invents are covered by theorems; the matrix is the search for a failing profile"]
-    return conclude(ctx, broken, trusted=TRUST_COMMON + ["extractors of the letter list, the plural format and the linked engine's keyword table"])
+    ctx.assumptions += ["that the engine accepts the REST of the emitted code (safety, types) is not modelled: only the names the translator invents and the three level names (defined by a rule or a default, never both: C07Levels) are covered by theorems; the matrix is the search for a failing profile",
+                        "C07Levels.levels_defined assumes every validation has at least one failure branch (proved for rules without empty and/or bodies); a validation with none (`and: []`, `propertyConstraints: {}`) alone in its level leaves the level undefined: zero_branches_leave_level_undefined"]
+    return conclude(ctx, broken, trusted=TRUST_COMMON + ["extractors of the letter list, the plural format and the linked engine's keyword table", "extractor of the level structure (ruleSet, preamble, the report rules of preambleRaw, the head line of wrapTopLevelRegoResult, the parser's level lists)"])
 
 
 # ------------------------------------------------------------------ C05
